@@ -568,3 +568,31 @@ pub fn c09_roots_field8() {
     kani::cover!(l == 4);
     kani::cover!(l == 5);
 }
+
+//@ harness: c09_field8_pow_glue
+//@ prop: C09
+//@ tier: quick
+//@ cost: 30
+//@ funcs: FieldElementWithInteger::pow (make_field! glue at GF(17)) vs fp::ops::FieldOps::pow
+//@ bounds: every base and every exponent 0..=255 (incl. base 0 with exponents p-1, 2(p-1), ...)
+//@ asserts: the public pow passes base and exponent through unchanged: representative = FP8::pow(representative, exponent); 0^e = 0 for e > 0
+#[kani::proof]
+#[kani::unwind(10)]
+pub fn c09_field8_pow_glue() {
+    let raw: u8 = kani::any();
+    let e: u8 = kani::any();
+    let x = match Field8::verif_from_raw(raw) {
+        Some(x) => x,
+        None => {
+            kani::assume(false);
+            Field8::zero()
+        }
+    };
+    let got = x.pow(e);
+    assert_eq!(got.verif_raw(), FP8::pow(raw, e));
+    if raw == 0 && e > 0 {
+        assert!(got == Field8::zero());
+    }
+    kani::cover!(raw == 0 && e == 16);
+    kani::cover!(e == 255);
+}
